@@ -33,7 +33,10 @@ FIELD_POOL = ['a', 'b', 'x', 'value', 'name', 'fn', 'ctx', 'args', 'kwargs', 'cl
 
 
 def init_name(f, lib):
-    """the constructor argument of a field: attrs strips leading underscores of private attributes (dataclasses do not)"""
+    """the constructor argument of a field: attrs strips leading underscores of private attributes (dataclasses do not)
+    unless an explicit alias= says otherwise"""
+    if lib == 'attrs' and f.get('alias'):
+        return f['alias']
     return f['name'].lstrip('_') if lib == 'attrs' else f['name']
 
 FACTORIES = {'list': list, 'dict': dict, 'int': int, 'seven': lambda: 7, 'text': lambda: 'dflt',
@@ -175,6 +178,11 @@ def _ctx_cases():
 
 def fixed_cases():
     yield from _ctx_cases()
+    # attrs attributes with an explicit alias= (also one that keeps a leading underscore)
+    yield {'kind': 'class', 'lib': 'attrs', 'frozen': False, 'slots': False, 'width': 79, 'indent': 4,
+           'fields': [{'name': '_p', 'default': ['none'], 'repr': True, 'value': ['int', 1], 'alias': 'ident'},
+                      {'name': 'x', 'default': ['val', ['int', 3]], 'repr': True, 'value': ['int', 4], 'alias': '_raw'},
+                      {'name': 'b', 'default': ['val', ['int', 0]], 'repr': True, 'value': ['int', 9], 'alias': 'size'}]}
     for lib in ('dc', 'attrs'):
         # private attribute names: attrs takes them in the constructor without the leading underscore
         yield {'kind': 'class', 'lib': lib, 'frozen': False, 'slots': False, 'width': 79, 'indent': 4,
@@ -251,7 +259,8 @@ def strategy(tier):
                         st.sampled_from(sorted(FACTORIES)).map(lambda k: ['fac', k]), st.just(['facself']))
     field = st.fixed_dictionaries({
         'name': st.sampled_from(FIELD_POOL), 'default': default, 'repr': st.sampled_from([True, True, True, False]),
-        'value': st.one_of(st.just('default'), st.just('default'), small), 'kw': st.sampled_from([False, False, True])})
+        'value': st.one_of(st.just('default'), st.just('default'), small), 'kw': st.sampled_from([False, False, True]),
+        'alias': st.sampled_from([None, None, None, 'al1', '_raw', 'ident'])})
     scalar = st.one_of(S['r_int'], S['r_str'], S['r_const'])
     pseudo = st.lists(st.tuples(st.sampled_from(['classvar', 'classvar', 'initvar']), st.sampled_from(['registry', 'count', 'cv', 'iv']),
                                 scalar, st.one_of(st.none(), scalar)).map(list), max_size=2, unique_by=lambda p: p[1])
@@ -373,7 +382,7 @@ def make_class(case):
     pseudo = case.get('pseudo') or []      # dataclasses only: [kind 'classvar'|'initvar', name, default recipe, changed-to recipe or None]
     inherit = int(case.get('inherit') or 0)        # the first `inherit` fields are declared in a base class
     inherit = inherit if 0 < inherit < len(fields) else 0
-    key = json.dumps([case['lib'], case['frozen'], case['slots'], [[f['name'], f['default'], f['repr'], bool(f.get('kw'))] for f in fields], pseudo, kw_class, inherit,
+    key = json.dumps([case['lib'], case['frozen'], case['slots'], [[f['name'], f['default'], f['repr'], bool(f.get('kw')), f.get('alias') if case['lib'] == 'attrs' else None] for f in fields], pseudo, kw_class, inherit,
                       bool(case.get('unset_attr')) and case['lib'] == 'attrs'], sort_keys=True)
     name = 'K' + hashlib.blake2b(key.encode(), digest_size=6).hexdigest()
     cls = getattr(dyn, name, None)
@@ -427,6 +436,8 @@ def make_class(case):
         for f in fields:
             d = f['default']
             kw = {'kw_only': True} if f.get('kw') else {}
+            if f.get('alias'):
+                kw['alias'] = f['alias']
             if d[0] == 'none':
                 attrs[f['name']] = attr.ib(repr=f['repr'], **kw)
             elif d[0] == 'val':
@@ -478,7 +489,7 @@ def oracle_class(case):
     _install()
     try:
         cls, fields = make_class(case)
-    except (TypeError, ValueError) as e:
+    except Exception as e:      # dataclasses / attrs refuse the definition (argument order, duplicate constructor names, ...)
         return core.skip('definition-rejected')
     kwargs = {}
     expected = []
